@@ -93,6 +93,7 @@ var propRules = map[string][]ruleSpec{
 		{"R10", "Repeat only as a guarded stretch", ruleR10},
 		{"R3", "operands not modified (E2)", ruleR3},
 		{"R19", "Slice restores the rank gorgonia drops", ruleR19},
+		{"R19s", "Slice establishes the preconditions of gorgonia's Tensor.Slice (step count, empty range)", ruleR19Steps},
 		{"R20", "Data() passes the scalar wrapper before slice assertions", ruleR20Scalar},
 		{"R21", "attribute state read-only after Init", ruleR21},
 		{"R7t", "Transpose delegates to gorgonia", ruleTermsShapeOps},
